@@ -241,3 +241,88 @@ ACCUMULATOR_PARAMS = {
         ["visited"],
     "graph_operations.linear_paths.LinearPaths.linear_path": ["exclude"],
 }
+
+# --------------------------------------------------------------------------
+# C04 / C20: field grammars (GFA1 and GFA2 specifications; SAM specification
+# for the tag datatypes).  Regular expressions are *strict*: the whole string
+# must match, nothing may follow.  Where the specification is silent gfapy's
+# documented choice is the reference (sign allowed on integers; per-subtype B
+# arrays: unsigned elements for C,S,I).
+FLOAT_RE = r"[-+]?[0-9]*\.?[0-9]+([eE][-+]?[0-9]+)?"
+GFA1_NAME_RE = r"[!-)+-<>-~][!-~]*"
+CIGAR1_RE = r"\*|([0-9]+[MIDNSHPX=])+"
+GRAMMAR = {
+    "alignment_gfa1": ("re", CIGAR1_RE),
+    "alignment_list_gfa1": ("re", r"(%s)(,(%s))*" % (CIGAR1_RE, CIGAR1_RE)),
+    "byte_array": ("re", r"[0-9A-F]+"),
+    "char": ("re", r"[!-~]"),
+    "comment": ("without", "\n"),
+    "custom_record_type": ("re-minus", r"[!-~]+",
+                           ["E", "G", "F", "O", "U", "H", "#", "S"]),
+    "float": ("re", FLOAT_RE),
+    "generic": ("without", "\n\t"),
+    "identifier_gfa2": ("re", r"[!-~]+"),
+    "identifier_list_gfa2": ("re", r"[!-~]+( [!-~]+)*"),
+    "integer": ("re", r"[-+]?[0-9]+"),
+    "json": ("re+json", r"[ !-~]+"),
+    "numeric_array": ("re", r"f(,%s)+|[CSI](,\+?[0-9]+)+|[csi](,[-+]?[0-9]+)+"
+                      % FLOAT_RE),
+    "optional_identifier_gfa2": ("re", r"[!-~]+"),
+    "optional_integer": ("re", r"\*|[-+]?[0-9]+"),
+    "orientation": ("re", r"[+-]"),
+    "oriented_identifier_gfa2": ("re", r"[!-~]+[+-]"),
+    "oriented_identifier_list_gfa1": ("re", r"%s[+-](,%s[+-])*" % (
+        GFA1_NAME_RE, GFA1_NAME_RE)),
+    "oriented_identifier_list_gfa2": ("re", r"[!-~]+[+-]( [!-~]+[+-])*"),
+    "path_name_gfa1": ("re", GFA1_NAME_RE),
+    "position_gfa1": ("re", r"[0-9]+"),
+    "position_gfa2": ("re", r"[0-9]+\$?"),
+    "segment_name_gfa1": ("re-not-containing", GFA1_NAME_RE, r"[+-],"),
+    "sequence_gfa1": ("re", r"\*|[A-Za-z=.]+"),
+    "sequence_gfa2": ("re", r"[!-~]+"),
+    "string": ("re", r"[ !-~]+"),
+}
+TAG_RE = r"([A-Za-z][A-Za-z0-9]):([AifZJHB]):(.+)"
+TAG_NAME_RE = r"[A-Za-z][A-Za-z0-9]"
+TAG_DATATYPES = {"A": "char", "i": "integer", "f": "float", "Z": "string",
+                 "J": "json", "H": "byte_array", "B": "numeric_array"}
+
+# record type -> (positional field datatypes in order, predefined tag types)
+RECORDS = {
+    ("H", None): ([], {"VN": "Z", "TS": "i"}),
+    ("S", "gfa1"): (["segment_name_gfa1", "sequence_gfa1"],
+                    {"LN": "i", "RC": "i", "FC": "i", "KC": "i", "SH": "H",
+                     "UR": "Z"}),
+    ("S", "gfa2"): (["identifier_gfa2", "i", "sequence_gfa2"],
+                    {"RC": "i", "FC": "i", "KC": "i", "SH": "H", "UR": "Z"}),
+    ("L", None): (["segment_name_gfa1", "orientation", "segment_name_gfa1",
+                   "orientation", "alignment_gfa1"],
+                  {"MQ": "i", "NM": "i", "RC": "i", "FC": "i", "KC": "i",
+                   "ID": "Z"}),
+    ("C", None): (["segment_name_gfa1", "orientation", "segment_name_gfa1",
+                   "orientation", "position_gfa1", "alignment_gfa1"],
+                  {"MQ": "i", "NM": "i", "ID": "Z"}),
+    ("P", None): (["path_name_gfa1", "oriented_identifier_list_gfa1",
+                   "alignment_list_gfa1"], {}),
+    ("E", None): (["optional_identifier_gfa2", "oriented_identifier_gfa2",
+                   "oriented_identifier_gfa2", "position_gfa2",
+                   "position_gfa2", "position_gfa2", "position_gfa2",
+                   "alignment_gfa2"], {"TS": "i"}),
+    ("F", None): (["identifier_gfa2", "oriented_identifier_gfa2",
+                   "position_gfa2", "position_gfa2", "position_gfa2",
+                   "position_gfa2", "alignment_gfa2"], {"TS": "i"}),
+    ("G", None): (["optional_identifier_gfa2", "oriented_identifier_gfa2",
+                   "oriented_identifier_gfa2", "i", "optional_integer"], {}),
+    ("O", None): (["optional_identifier_gfa2",
+                   "oriented_identifier_list_gfa2"], {}),
+    ("U", None): (["optional_identifier_gfa2", "identifier_list_gfa2"], {}),
+    ("#", None): (["comment", "comment"], {}),
+    ("\n", None): (["identifier_gfa2"], {}),
+}
+
+# value classes: which are immutable (cannot be changed through any method)
+IMMUTABLE_VALUE_CLASSES = {"int", "float", "str", "bool", "NoneType",
+                           "ByteArray", "Placeholder", "AlignmentPlaceholder",
+                           "LastPos"}
+MUTABLE_VALUE_CLASSES = {"list", "dict", "CIGAR", "Trace", "NumericArray",
+                         "OrientedLine", "FieldArray"}
